@@ -67,6 +67,19 @@ CLAIMS['C07'] = dict(
          'through grid points, finiteness under extrapolation or raising outside the range (raysect interpolators).',
     technique='exception-flow comparison (handler set vs getter raise set), signature binding through the class hierarchy, guard dominance, constant propagation through the IfExp idiom, def-use wiring checks')
 
+CLAIMS['C01'] = dict(
+    text='Decides necessary structural conditions of history independence on every public mutator of Plasma, Beam, Laser, their '
+         'model managers, Composition, the attenuator and every emission model (sites and paths, not call sequences): every setter '
+         'writing a source of a builder of derived state (bounding geometry, materials, attenuator wiring) re-runs that builder, '
+         'resolved on the concrete class with virtual dispatch and through notifier callbacks; every field another class reads '
+         'inside a cached computation is announced by each mutator writing it and the reader subscribes a callback that reaches '
+         'its builder or invalidator; lazily cached models test a sentinel that populate sets and _change resets; setters of '
+         'subscribed sources do remove-old/add-new/invalidate and materials hand every model its sources; the scene-graph hook '
+         '_modified and every notifier callback are reachable through Python dispatch; Species/Line/Element/Isotope fields are '
+         'read-only. A stale cache shows only for a particular order of calls; a missing invalidation edge is visible in the '
+         'source regardless of order. Does not decide equality of observed spectra/densities or weak-reference lifetimes.',
+    technique='effects/derived-state closure with virtual dispatch, observer-graph reachability, lazy-cache typestate, declared-visibility lint (who-may-write, def vs cdef dispatch)')
+
 # ---- everything not claimed above is pending / not applicable
 _pending = 'check not built yet in this session (see DESIGN.md build order); not claimed until it is'
 for _p in ['C%02d' % i for i in range(1, 21)]:
